@@ -40,6 +40,11 @@ TRUSTED = [
     "floating point: the harness compares float64 intensities with relative tolerance 1e-9 on events whose "
     "polar angles satisfy sin(theta) > 1e-4 (conditioning of acos); observed agreement on invariant cases ~1e-15",
     "event generator and rotation code of bridge/search_C04.py (own numpy code, independent of ampform)",
+    "which topologies count as 'all isobars are helicity states' (the must-hold multi-topology families with "
+    "signatures ..._helicity_isobars_only_not_invariant) is decided by the harness' own rule written from the "
+    "documentation (opposite state = the sibling whose sorted attached final-state id tuple is lexicographically "
+    "larger), never by /repo; ampform's is_opposite_helicity_state is compared with that rule exhaustively on all "
+    "isobar topologies with 2..5 leaves x all relabellings of the final-state ids (656 topologies) on every run",
 ]
 
 RULE = ("corpus reactions x {every single topology; all topologies unaligned; axis-angle; DPD} x seeded phase-space "
@@ -92,7 +97,7 @@ def run(chk):
     # signatures of families that ARE invariant on the unchanged tree: a failure there is a fresh
     # concrete input; the others also fail on the unchanged tree and cannot explain a broken proof
     fresh = [f for f in doc["failures"]
-             if f["signature"].startswith(("single_", "exception_", "wignerD", "wignerd"))
+             if f["signature"].startswith(("single_", "exception_", "wignerD", "wignerd", "opposite_helicity_rule"))
              or f["signature"].startswith("multi_topology_unaligned_spinless_helicity_isobars_only")]
     if chk.broken and not fresh:
         b = chk.broken[0]
